@@ -2,6 +2,7 @@ import LunaVerif.Core.Proto
 import LunaVerif.Model.Phy.FsCodec
 import LunaVerif.Model.Phy.FsTx
 import LunaVerif.Model.Phy.FsRx
+import LunaVerif.Model.Phy.FsRxCdc
 open LunaVerif LunaVerif.Proto LunaVerif.FsCodec
 
 structure DrvState where
@@ -9,6 +10,7 @@ structure DrvState where
   phase : Nat
   tx    : FsTx.St
   rx    : FsRx.St := {}
+  cdc   : FsRxCdc.St := {}
 
 /-- config line: `# sub [phase]` where sub = 1: `encode` (row = the bytes of one packet; output = `n sym_1 … sym_n`,
 symbols 0 = SE0, 1 = J, 2 = K, one per bit time);
@@ -21,10 +23,13 @@ output = `tx_ready d_p.o d_n.o oe fit_dat fit_oe`);
 sub = 5: the cycle-level receive path `FsRx.step` (row = one usb_io cycle: `i_usbp i_usbn`; output = the internals of
 the real RxPipeline: `line_state_valid dj dk se0 se1 | nrzi o_valid o_data o_se0 | detect o_pkt_start o_pkt_active
 o_pkt_end | bitstuff o_data o_stall o_error | shifter o_put o_data | payload_fifo w_en w_data | flags_fifo w_en w_data |
-o_receive_error`). -/
+o_receive_error`);
+sub = 6: the receive path with its clock-domain crossing `FsRxCdc.step phase` (row as sub = 5; output = the `usb`-domain
+outputs of the real RxPipeline `o_data_strobe o_data_payload o_pkt_start o_pkt_end o_pkt_in_progress o_receive_error`
+and `payload_fifo.w_rdy flags_fifo.w_rdy`). -/
 def main : IO Unit :=
   runDriver (σ := DrvState)
-    (fun cfg => ⟨fld cfg 0, fld cfg 1, {}, {}⟩)
+    (fun cfg => ⟨fld cfg 0, fld cfg 1, {}, {}, {}⟩)
     (fun st r =>
       if st.sub == 1 then
         let w := encode r
@@ -51,6 +56,12 @@ def main : IO Unit :=
           b2n o.put, o.payData,
           b2n (o.pktStart || o.pktEnd), 2 * b2n o.pktStart + b2n o.pktEnd,
           b2n o.rxErr])
+      else if st.sub == 6 then
+        let s := st.cdc
+        let (s', o) := FsRxCdc.step st.phase s ⟨n2b (fld r 0), n2b (fld r 1)⟩
+        ({ st with cdc := s' },
+         [b2n o.strobe, o.payload, b2n o.pktStart, b2n o.pktEnd, b2n o.inProgress, b2n o.rxErr,
+          b2n s.pay.wRdy, b2n s.flg.wRdy])
       else
         let (s', o) := FsTx.step st.phase st.tx ⟨n2b (fld r 0), fld r 1⟩
         ({ st with tx := s' },
